@@ -24,6 +24,9 @@ fn main() {
             .replace("std::time::UNIX_EPOCH", "simkit::shim::time::UNIX_EPOCH")
             .replace("std::env::temp_dir()", "tempfile::env_temp_dir()")
             .replace("std::thread::sleep", "simkit::shim::time::sleep");
+        // println!/eprintln! go through the simulator: inside a simulated sandbox
+        // child, stdout is the pipe that carries the frames.
+        let l = reroute_print(&l);
         // `use std::fs;` / `use std::fs as x;` / `fs` inside a `use std::{..}` group
         let l = if t.starts_with("use std::fs;") || t.starts_with("use std::fs as ") {
             l.replace("use std::fs", "use simkit::shim::fs")
@@ -35,4 +38,35 @@ fn main() {
     }
     let dst = PathBuf::from(env::var("OUT_DIR").unwrap()).join("config.rs");
     fs::write(dst, out).unwrap();
+}
+
+/// `println!(` -> `simkit::sim_println!(`, `eprintln!(` -> `simkit::sim_eprintln!(`
+/// (whole macro names only).
+fn reroute_print(line: &str) -> String {
+    let mut out = String::new();
+    let mut rest = line;
+    while let Some(i) = rest.find("println!(") {
+        let before = &rest[..i];
+        let prev = before.chars().last();
+        let is_e = prev == Some('e')
+            && !before[..before.len() - 1]
+                .chars()
+                .last()
+                .map(|c| c.is_alphanumeric() || c == '_')
+                .unwrap_or(false);
+        let ident_char = prev.map(|c| c.is_alphanumeric() || c == '_').unwrap_or(false);
+        if is_e {
+            out.push_str(&before[..before.len() - 1]);
+            out.push_str("simkit::sim_eprintln!(");
+        } else if ident_char {
+            out.push_str(before);
+            out.push_str("println!(");
+        } else {
+            out.push_str(before);
+            out.push_str("simkit::sim_println!(");
+        }
+        rest = &rest[i + "println!(".len()..];
+    }
+    out.push_str(rest);
+    out
 }
